@@ -545,7 +545,9 @@ class MockIncludeDirective:
                 # (on top of the offset of an include that this one is nested in)
                 heading_offset=self.renderer._heading_offset
                 + self.options.get("heading-offset", 0),
-                allow_front_matter=True,
+                # only the beginning of the file can be its front matter: a selection
+                # that starts with `---` further down starts with a thematic break
+                allow_front_matter=not (startline or self.options.get("start-after")),
             )
         finally:
             self.document.myst_include_stack.pop()
